@@ -37,6 +37,7 @@ DIRS = ["/run/lock", "/sys/fs/bpf", "/tmp"]
 
 KF_RACE = "C23-last-leaver-race"
 KF_FMMU = "C23-fmmu-create-init-window"
+KF_STALE = "C23-stale-table-joiner"
 
 
 def domains(seed):
@@ -193,11 +194,16 @@ def _race_pattern(log, a, k, need):
     return None
 
 
-def _kf_dispatcher(log, kind):
-    """attribute an invariant-2 violation to the documented last-leaver race
-    only if the dispatcher / the pin was taken away by a process A whose
-    rmdir of the lock directory succeeded before another process B renamed
-    its directory into place and installed"""
+def _kf_dispatcher(log, kind, who):
+    """attribute an invariant-2 violation to a documented defect, or None"""
+    return _kf_race(log, kind) or _kf_stale(log, who)
+
+
+def _kf_race(log, kind):
+    """the documented last-leaver race: the dispatcher / the pin was taken
+    away by a process A whose rmdir of the lock directory had succeeded
+    before another process B renamed its directory into place and
+    attached / pinned"""
     if kind == "no dispatcher attached":
         last = None
         for ev in log:
@@ -215,6 +221,89 @@ def _kf_dispatcher(log, kind):
         if last is not None and last[2] == "remove" and \
                 _race_pattern(log, last[1], last[0], "pin") is not None:
             return KF_RACE
+    return None
+
+
+def _lockdir_before(log, j):
+    """(exists, member files, who removed the last member and when) of the
+    lock directory just before step j, reconstructed from the log"""
+    exists, members, emptied = False, set(), None
+    tmpfiles = {}
+    for ev in log:
+        st, pid, name, args = ev[:4]
+        if st >= j:
+            break
+        if not _ok(ev):
+            continue
+        if name == "open" and isinstance(args[1], str) and args[1] != "r":
+            d, _, f = args[0].rpartition("/")
+            if d == LOCKDIR:
+                members.add(f)
+                emptied = None
+            else:
+                tmpfiles.setdefault(d, set()).add(f)
+        elif name == "remove" and args[0].startswith(LOCKDIR + "/"):
+            members.discard(args[0].rpartition("/")[2])
+            if not members:
+                emptied = (pid, st)
+        elif name == "rename" and args[1] == LOCKDIR:
+            exists, members, emptied = True, set(tmpfiles.get(args[0], ())), \
+                None
+        elif name in ("rmdir", "rmtree") and args[0] == LOCKDIR:
+            exists, members, emptied = False, set(), None
+    return exists, members, emptied
+
+
+def _kf_stale(log, who):
+    """a running participant C joined (obj_get of the pinned table at step
+    g) while a new installer B was between `rename succeeded` (step j) and
+    `pinned`, and the pin C got was the stale one of a previous owner A:
+    (S1) A's teardown was in progress (or A crashed in it): rmdir(A) ok at
+    i < j, and A neither executed its os.remove(programs) nor exited before
+    g; or (S2) A skipped the teardown: B's rename at j replaced the lock
+    directory that A had just emptied (A's removal of its lock file was the
+    last change, A's rmdir had not run yet), so A's rmdir fails."""
+    pids = {ev[1] for ev in log}
+    for c in who:
+        g = None
+        for ev in log:
+            if ev[1] == c and ev[2] == "obj_get" and _ok(ev):
+                g = ev[0]
+        if g is None:
+            continue
+        for b in pids - {c}:
+            j = None
+            for ev in log:
+                if ev[0] >= g:
+                    break
+                if ev[1] == b and _ok(ev):
+                    if ev[2] == "rename" and ev[3][1] == LOCKDIR:
+                        j = ev[0]
+                    elif ev[2] == "obj_pin":
+                        j = None
+            if j is None:
+                continue
+            # S2: B's rename replaced the directory A had just emptied
+            exists, members, emptied = _lockdir_before(log, j)
+            if exists and not members and emptied is not None \
+                    and emptied[0] != b and not any(
+                        ev[1] == emptied[0] and ev[2] == "rmdir"
+                        and emptied[1] < ev[0] < j for ev in log):
+                return KF_STALE
+            # S1: A's teardown in progress when C fetched the table
+            for a in pids - {b}:
+                i = None
+                for ev in log:
+                    if ev[0] >= j:
+                        break
+                    if ev[1] == a and ev[2] == "rmdir" \
+                            and ev[3][0] == LOCKDIR and _ok(ev):
+                        i = ev[0]
+                if i is not None and not any(
+                        ev[1] == a and i < ev[0] < g
+                        and ((ev[2] == "remove" and ev[3][0] == PROGRAMS)
+                             or ev[2] == "exit") for ev in log):
+                    return KF_STALE
     return None
 
 
@@ -267,7 +356,7 @@ def monitor(run):
         def bad(kind, observed, who=who):
             out.append(dict(inv=2, kind=kind, who=who, expected=exp,
                             observed=observed,
-                            kf=_kf_dispatcher(run.log, kind)))
+                            kf=_kf_dispatcher(run.log, kind, who)))
         if att is None:
             bad("no dispatcher attached",
                 f"participants {who} running, interface {IF} has no "
@@ -354,7 +443,9 @@ def spaces(ctx):
                          nslot=2)]
     else:
         sp = [make_space("full-2p-complete-crash1", "full", 2, None, 1, s),
-              make_space("restart-2p-complete", "restart", 2, None, 0, s),
+              make_space("restart-2p-preempt2", "restart", 2, 2, 0, s),
+              make_space("restart-2p-complete-small", "restart", 2, None, 0,
+                         s, neth=1, nslot=2),
               make_space("full-3p-preempt2", "full", 3, 2, 0, s),
               make_space("fmmu-3p-complete-crash1", "fmmu", 3, None, 1, s)]
     only = _os.environ.get("C23_SPACES")      # development aid
